@@ -270,6 +270,65 @@ def kw_order_cases(rng, count):
         yield ("kw%d" % k, truth, "\n".join(out) + "\n", accepted)
 
 
+
+def npd_header_shuffles(rng, info, count):
+    """NPD spellings with ALL header lines in another order, aimed at the case split of Files/NpdHeaderOrder.v: for every NPD
+    data set three headers - '#:ports' only, the legacy '#:rows' / '#:columns' only, both - each with an explicit '#:z0' line,
+    and for each of them every relative order of the '#:z0' line and the lines that fix the dimensions in turn (2, 6, 24
+    orders; the other header lines at random positions).  The loader must refuse exactly the orders with '#:z0' before the
+    lines the port count comes from ('#:ports' if the header has one, else both legacy lines).
+    Yields (cid, truth, sp, text, accepted)."""
+    import itertools
+    import re
+    seen = set()
+    done = 0
+    turn = 0
+    for cid, (kind, truth, sp0, text0, name) in info.items():
+        if kind != "npd" or id(truth) in seen or done >= count:
+            continue
+        seen.add(id(truth))
+        for dims in ("ports", "legacy", "both"):
+            if dims != "ports" and truth["type"] == "ZIN":
+                continue
+            sp = dict(sp0)
+            sp.update(legacy_dims=(dims == "legacy"), omit_default_z0=False, shuffle_header=False, crlf=False, odd_space=False,
+                      no_final_newline=False)
+            lines = D.gen_npd(truth, sp, rng).split("\n")
+            if dims == "both":
+                k = [i for i, ln in enumerate(lines) if re.match(r"^[ \t]*#:ports\b", ln)][0]
+                lines[k + 1:k + 1] = ["#:rows %d" % truth["ports"], "#:columns %d" % truth["ports"]]
+            idx = [i for i, ln in enumerate(lines) if re.match(r"^[ \t]*#:[a-z0-9]+([ \t]|$)", ln)]
+            kw = lambda ln: re.match(r"^[ \t]*#:([a-z0-9]+)", ln).group(1)
+            special = [i for i in idx if kw(lines[i]) in ("ports", "rows", "columns", "z0")]
+            others = [i for i in idx if i not in special]
+            orders = list(itertools.permutations(special))
+            for rep in range(2 if dims != "both" else 3):
+                order = orders[turn % len(orders)]
+                turn += 1
+                # positions: a random interleaving of the dimension / z0 lines (in the chosen order) with the other lines
+                rest = others[:]
+                rng.shuffle(rest)
+                slots = sorted(rng.sample(range(len(idx)), len(special)))
+                seq, si, ri = [], 0, 0
+                for pos in range(len(idx)):
+                    if si < len(slots) and slots[si] == pos:
+                        seq.append(order[si])
+                        si += 1
+                    else:
+                        seq.append(rest[ri])
+                        ri += 1
+                new = lines[:]
+                for i, j in zip(idx, seq):
+                    new[i] = lines[j]
+                kws = [kw(new[i]) for i in idx]
+                acc = True
+                if "z0" in kws:
+                    src = ["ports"] if "ports" in kws else ["rows", "columns"]
+                    acc = all(k2 in kws and kws.index(k2) < kws.index("z0") for k2 in src)
+                done += 1
+                yield ("ns%d_%s" % (done, cid), truth, sp, "\n".join(new), acc)
+
+
 def dc_start_cases(rng):
     """Directed: sweeps that start at DC (first frequency exactly 0, legal: only negative frequencies are invalid) for 1..4
     ports, every unit, version 1 and version 2 framing, and NPD.  Yields (cid, kind, truth, sp, text, name)."""
@@ -333,6 +392,9 @@ def run(ctx):
     ctx.level = "proof"
     ctx.trusted_base = [
         "Coq 8.16.1 kernel; no axioms (Print Assumptions: Closed under the global context for every theorem of Properties_C08.v)",
+        "Properties_C08_real.v / Files/TsFormatReal.v only (the instance of the RI / MA / DB laws over Coquelicot's complex numbers): "
+        "the axioms of the standard library's reals as Print Assumptions reports them - ClassicalDedekindReals.sig_not_dec, "
+        "ClassicalDedekindReals.sig_forall_dec, FunctionalExtensionality.functional_extensionality_dep, Classical_Prop.classic",
         "hand-written models coq/Files/TsTok.v (next_char / next_token, strtol / strtod on a word), coq/Files/TsParse.v "
         "(_vnadata_load_touchstone, load_touchstone1), coq/Files/NpdLoad.v (scan_line, _vnadata_load_npd) and coq/Files/NpdScan.v "
         "(NPD header lines), extracted to OCaml (ocaml/Extract_tstone.v, glue ocaml/drv_tstone.ml) and compared on every run with "
@@ -510,6 +572,37 @@ def run(ctx):
                       "loader died on a keyword-order file (case %s): %s" % (f["id"], f["stderr"][-300:]), {"stderr": f["stderr"][-3000:]})
     ctx.obligation("tie:keyword_orders", kbad == 0 and not kfaults, "%d of %d keyword orders differ" % (kbad, len(kw)))
     ctx.extra["keyword_orders"] = {"files": len(kw), "accepted": sum(1 for x in kw if x[3])}
+    # ---- NPD header lines in every order, accepted and refused (Files/NpdHeaderOrder.v)
+    ns = list(npd_header_shuffles(ctx.rng, info, 150 if ctx.tier == "quick" else 1500))
+    nres, nfaults = H.run([(cid, ["new 0 -1 0 0 0", "load 0 x.npd %s" % text.encode("latin-1").hex(), "dump 0"])
+                           for cid, truth, sp, text, acc in ns], timeout=900)
+    tstone_ties.tie_loads(ctx, M, [(cid, "x.npd", text) for cid, truth, sp, text, acc in ns], nres, "npd_header_orders")
+    nbad = 0
+    for cid, truth, sp, text, acc in ns:
+        lines = nres.get(cid)
+        if lines is None or any(l.startswith("FAULT") for l in lines):
+            continue
+        ctx.count(cid)
+        rc = int([l for l in lines if l.startswith("LOAD")][0].split()[1])
+        what = None
+        if (rc == 0) != acc:
+            what = "vnadata_fload %s an NPD file whose header order %s '#:z0' after the port count" % (
+                "loads" if rc == 0 else "rejects", "does not have" if rc == 0 else "has")
+        elif rc == 0:
+            r = compare(truth, D.parse_dump([l for l in lines if l.startswith("DUMP")][0]), "npd", sp)
+            if r is not None:
+                what = "the order of the NPD header lines changes the loaded data: %s" % r[1]
+        ctx.traces_validated += 1
+        if what:
+            nbad += 1
+            if nbad <= 3:
+                ctx.violation({"kind": "npd_header_order", "filetype": "npd", "accepted_by_model": acc}, what,
+                              {"file": text, "harness_output": [l[:1500] for l in lines]})
+    for f in nfaults:
+        ctx.violation(vplib.asan_signature(f["stderr"]) or {"kind": "fault", "error": "exit %s" % f["rc"], "function": None},
+                      "loader died on an NPD header-order file (case %s): %s" % (f["id"], f["stderr"][-300:]), {"stderr": f["stderr"][-3000:]})
+    ctx.obligation("tie:npd_header_orders", nbad == 0 and not nfaults, "%d of %d header orders differ" % (nbad, len(ns)))
+    ctx.extra["npd_header_orders"] = {"files": len(ns), "accepted": sum(1 for x in ns if x[4])}
     # ---- RI / MA / DB: convert_value_pair against its extracted model and against the ground truth
     c08_ties.format_tie(ctx, H)
     for b in broken:
